@@ -550,6 +550,14 @@ def generate(ctx):
         yield ("corr", "path_hashes", [dup, lv])
         yield ("corr", "control_block", [dup, pv, lv])
     yield ("prop", "tree", [dup, pv])
+    # the same script under two different leaf versions in one tree: both leaves must stay spendable
+    first = tv[1][1]
+    twin = [0, first[1] ^ 2, first[2]]
+    for twins in ([1, [1, first, twin], tv[2]], [1, tv[1], [1, twin, tv[2][1]]], [1, [1, twin, tv[1][2]], [1, tv[2][0] if False else tv[2][1], first]]):
+        ctx.label("tree/same-script-two-versions")
+        yield ("prop", "tree", [twins, pv])
+        for lv in tree_leaves(twins):
+            yield ("corr", "control_block", [twins, pv, lv])
     wrong_version = [tree_leaves(tv)[0][0] ^ 2, tree_leaves(tv)[0][1]]
     yield ("corr", "control_block", [tv, pv, wrong_version])
     rawleaf = [tree_leaves(tv)[1][0], [tree_leaves(tv)[1][1][0], [b"\x03\x01"]]]
